@@ -120,6 +120,8 @@ func specsFlavours() []caseSpec {
 	return out
 }
 
+func isStart(cs caseSpec) bool { return cs.Entry == "start" || cs.Entry == "_start" }
+
 func specsTickless() []caseSpec {
 	var out []caseSpec
 	for _, s := range []string{"loop-br_if", "loop-br_table", "nested-inner-backedge", "nested-outer-backedge",
@@ -148,6 +150,7 @@ func run(c *core.Ctx) int {
 		moments = []int{-1, 0, 1, 2, 3, 7, 8, 31, 100, 1000}
 	}
 	var tcases []tcase
+	withStack := false
 	add := func(cs caseSpec, eng, cause string, moment int) {
 		code := codePool[rng.Intn(len(codePool))]
 		if rng.Chance(1, 4) {
@@ -159,7 +162,8 @@ func run(c *core.Ctx) int {
 		if code == 0xffffffff || code == 0xefffffff {
 			code = 77 // keep the close codes distinguishable from the context codes
 		}
-		tcases = append(tcases, tcase{caseSpec: cs, Engine: eng, Cause: cause, Moment: moment, Code: code, HostPanics: rng.Bool()})
+		tcases = append(tcases, tcase{caseSpec: cs, Engine: eng, Cause: cause, Moment: moment, Code: code, HostPanics: rng.Bool(),
+			WithStack: withStack || (moment >= 0 && !isStart(cs) && rng.Chance(1, 3))})
 	}
 	for _, cs := range specsStatic(thorough) {
 		for _, eng := range engines {
@@ -170,12 +174,28 @@ func run(c *core.Ctx) int {
 			}
 		}
 	}
+	// "the context is already done when the call starts": every context-borne cause and flavour x every shape x
+	// both engines x Call and CallWithStack (the plain cancel/deadline + Call points are in the block above)
+	for _, cs := range specsStatic(thorough) {
+		for _, eng := range engines {
+			for _, cause := range ctxCauses() {
+				for _, ws := range []bool{false, true} {
+					if (ws && isStart(cs)) || (!ws && (cause == "cancel" || cause == "deadline")) {
+						continue
+					}
+					withStack = ws
+					add(cs, eng, cause, -1)
+				}
+			}
+		}
+	}
+	withStack = false
 	// context flavours of cancel / deadline (user-supplied cause, derived contexts): a representative subset of shapes
 	flavours := append(append([]string(nil), cancelFlavours...), deadlineFlavours...)
 	for _, cs := range specsFlavours() {
 		for _, eng := range engines {
 			for _, cause := range flavours {
-				for _, k := range []int{-1, 0, 1, 7, 100} {
+				for _, k := range []int{0, 1, 7, 100} {
 					add(cs, eng, cause, k)
 				}
 			}
@@ -449,7 +469,12 @@ func (d *decider) tickedResult(tc tcase, r core.CaseResult) {
 	if tc.Moment >= 0 {
 		momentS = fmt.Sprint(tc.Moment)
 	}
-	point := fmt.Sprintf("%s|%s|%s|%s", t.Label, eng, cause, momentS)
+	callForm := "Call"
+	if tc.WithStack {
+		callForm = "CallWithStack"
+		c.Count("entry_via_CallWithStack", 1)
+	}
+	point := fmt.Sprintf("%s|%s|%s|%s|%s", t.Label, eng, cause, momentS, callForm)
 	pt := t.Label + "|" + cause + "@" + momentS
 
 	if t.CloseSyncNo {
@@ -499,6 +524,23 @@ func (d *decider) tickedResult(tc tcase, r core.CaseResult) {
 	}
 	if t.Reopened {
 		d.violate("closed-flag-reverted:"+eng, group, pt, "IsClosed() was true and later false", wit())
+	}
+
+	// 0. a call that starts with an already-done context must not enter the guest at all
+	if tc.Moment < 0 && causeKind(cause) != "close" {
+		c.Count("done_context_at_call_entry_"+eng+"_"+callForm, 1)
+		if t.Ticks > 0 {
+			d.violate("guest-entered-with-done-context:"+eng, group, pt,
+				fmt.Sprintf("%s on %s via %s: the context (%s) was already done when the call started, yet the guest ran (%d ticks)", t.Label, eng, callForm, cause, t.Ticks), wit())
+		}
+	}
+	// the harness' expectation follows ctx.Err(): Canceled -> ExitCodeContextCanceled, DeadlineExceeded -> ExitCodeDeadlineExceeded
+	if t.CtxErr != "" {
+		wantKind := map[string]string{"context canceled": "cancel", "context deadline exceeded": "deadline"}[t.CtxErr]
+		if wantKind != causeKind(cause) {
+			c.Inconclusive("ctx-err-does-not-match-flavour")
+			return
+		}
 	}
 
 	// 1. bounded progress after the close was observed
